@@ -739,6 +739,45 @@ pub fn leap_dumps(rec: &mut Rec) {
         let n = p.clone().count();
         (0..n).map(|i| jleap(&p[i])).collect()
     }));
+    // the providers walked through the iterator adaptors of the standard library (skip, step_by, nth followed by the
+    // rest - all built on Iterator::nth): the entries listed are those of the table, in order, none twice
+    let adapt = |rec: &mut Rec, src: &str, how: &str, n: usize, all: &Vec<String>, r: Result<Vec<String>, String>| {
+        rec.episode();
+        let res = match r {
+            Ok(v) => format!("{{\"v\":[{}]}}", v.join(",")),
+            Err(m) => jpanic(&m),
+        };
+        rec.ev("leap_adapt", format!("\"src\":\"{}\",\"how\":\"{}\",\"n\":{},\"all\":[{}],\"res\":{}", src, how, n, all.join(","), res), true);
+    };
+    let all_b: Vec<String> = {
+        let p = LatestLeapSeconds::default();
+        (0..42).map(|i| jleap(&p[i])).collect()
+    };
+    let all_f: Vec<String> = {
+        let p = LeapSecondsFile::from_path(LEAP_FILE).unwrap();
+        let n = p.clone().count();
+        (0..n).map(|i| jleap(&p[i])).collect()
+    };
+    for n in [0usize, 1, 2, 13, 14, 15, 27, 28, 41, 42, 43] {
+        adapt(rec, "builtin", "skip", n, &all_b, catch(|| LatestLeapSeconds::default().skip(n).take(300).map(|l| jleap(&l)).collect()));
+        adapt(rec, "file", "skip", n, &all_f, catch(|| LeapSecondsFile::from_path(LEAP_FILE).unwrap().skip(n).take(300).map(|l| jleap(&l)).collect()));
+        adapt(rec, "builtin", "nth_then", n, &all_b, catch(|| {
+            let mut p = LatestLeapSeconds::default();
+            let mut v: Vec<String> = p.nth(n).iter().map(jleap).collect();
+            v.extend(p.take(300).map(|l| jleap(&l)));
+            v
+        }));
+        adapt(rec, "file", "nth_then", n, &all_f, catch(|| {
+            let mut p = LeapSecondsFile::from_path(LEAP_FILE).unwrap();
+            let mut v: Vec<String> = p.nth(n).iter().map(jleap).collect();
+            v.extend(p.take(300).map(|l| jleap(&l)));
+            v
+        }));
+        if n > 0 {
+            adapt(rec, "builtin", "step_by", n, &all_b, catch(|| LatestLeapSeconds::default().step_by(n).take(300).map(|l| jleap(&l)).collect()));
+            adapt(rec, "file", "step_by", n, &all_f, catch(|| LeapSecondsFile::from_path(LEAP_FILE).unwrap().step_by(n).take(300).map(|l| jleap(&l)).collect()));
+        }
+    }
     // the NAIF kernel shipped with the sources: DELTET/DELTA_AT = ( delta, @YYYY-MON-D ... )
     let txt = std::fs::read_to_string(NAIF_FILE).unwrap_or_default();
     let mut items: Vec<String> = Vec::new();
